@@ -220,7 +220,7 @@ REL_SUFFIX = {"hyperlink": "hyperlink", "pageSetup": "printerSettings", "drawing
 
 
 def rule_rid_pairs(chk, fb):
-    rc = chk.rule("C02.c", "relationship ids agree between a part and its .rels: the ordered sequence of id-consuming elements (kind, loop, guard) in the part writer equals the prefix of the sequence of relationships in the rels writer; every consumed id is followed by an increment", floor=7)
+    rc = chk.rule("C02.c", "relationship ids agree between a part and its .rels: the ordered sequence of id-consuming elements (kind, loop, guard) in the part writer equals the prefix of the sequence of relationships in the rels writer; every consumed id is followed by an increment made under exactly the same conditions and in the same loop (an id advances when, and only when, one was consumed)", floor=7)
     rd = chk.rule("C02.d", "deterministic pairing: every loop that consumes relationship ids iterates an ordered collection (not a HashMap/HashSet, whose order differs between the two passes)", floor=4)
     pairs = [("writer::xlsx::worksheet::write", "writer::xlsx::worksheet_rels::write"), ("writer::xlsx::workbook::write", "writer::xlsx::workbook_rels::write")]
     for xml_fn, rels_fn in pairs:
@@ -469,6 +469,132 @@ def rule_quote(chk, fb):
             n += 1
 
 
+def rule_sheet_ids(chk, fb):
+    """sheetId / r:id of <sheet> are unique because they are the position counter and nothing else."""
+    from mirq import Flow
+
+    r = chk.rule(
+        "C02.k",
+        "sheet ids are unique by construction: the values written for <sheet sheetId> and <sheet r:id> derive only from the loop's position counter and constants (no model field, whose values nothing keeps distinct)",
+        floor=2,
+    )
+    d = "writer::xlsx::workbook::write"
+    b = fb.mir.get(d)
+    if not b:
+        chk.ob(r, "anchor", False, detail="workbook writer not found")
+        return
+    chk.touch(d)
+    fl = Flow(fb, b)
+    seen = set()
+    for bl in b["blocks"]:
+        for s in bl["s"]:
+            if s["k"] == "assign" and s["rv"]["k"] == "agg" and s["rv"].get("ak") == "tuple" and len(s["rv"]["ops"]) == 2:
+                a0 = fl.atoms(s["rv"]["ops"][0])
+                for attr in ("sheetId", "r:id"):
+                    if a0 == {("const", attr)}:
+                        at = fl.atoms(s["rv"]["ops"][1])
+                        if attr == "r:id" and not any(a[0] == "const" and "rId" in str(a[1]) for a in at):
+                            continue
+                        model = sorted(a[1] if a[0] == "call" else ("parameter %d" % a[1] if a[0] == "arg" else "%s.%s" % (a[1].split("::")[-1], a[2])) for a in at
+                                       if (a[0] == "call" and not a[1].lstrip("<").startswith(("std::", "core::", "alloc::", "T as std::")))
+                                       or (a[0] == "field" and a[1] in fb.adts) or a[0] == "arg")
+                        inst = "sheet@%s" % attr
+                        if inst in seen:
+                            inst += "#%d" % len(seen)
+                        seen.add(inst)
+                        chk.ob(r, inst, not model, where="%s:%s" % (b["file"], s.get("ln")),
+                               detail="value derives from the counter and constants only" if not model else "value also derives from %s" % model)
+
+
+def _neg_guarded(cfg, fl, b, target, pred):
+    """Call blocks cb (satisfying pred) whose boolean result decides `target`: a switch on the call's result exists such
+    that, without going through cb again, `target` is reachable from the switch's `false` successor only."""
+    out = []
+    for x in cfg.reach:
+        t = b["blocks"][x]["t"]
+        if t["k"] != "switch" or len(t.get("targets", [])) != 1 or t["targets"][0][0] != 0:
+            continue
+        for a in fl.atoms(t["op"], through_calls=False):
+            if a[0] != "call" or not pred(a):
+                continue
+            if len(fl.atoms(t["op"], through_calls=False)) != 1:
+                continue
+            cb = a[2]
+            f_succ, t_succ = t["targets"][0][1], t["otherwise"]
+            if target in cfg.reachable(f_succ, avoid=[cb]) and target not in cfg.reachable(t_succ, avoid=[cb]):
+                out.append(cb)
+    return out
+
+
+def rule_fresh_names(chk, fb, rid="C02.l"):
+    """Numbered part names are allocated against the list of parts already in the archive (raw sheets bring their own
+    drawings / comments / tables under their original numbers, and add_writer silently skips an existing name)."""
+    from cfg import CFG
+    from mirq import Flow
+
+    r = chk.rule(
+        rid,
+        "numbered part names are fresh: every WriterManager method that adds a part under a computed (numbered) name does so only after check_file_exist of that very name said no, or takes the number from a method that returns only numbers tested that way",
+        floor=8,
+    )
+    WM = "structs::writer_manager::WriterManager"
+    impl = {d: b for d, b in fb.mir.items() if (b.get("self_ty") or "").startswith(WM) and b["kind"] == "AssocFn"}
+
+    def fmt_calls(at):
+        return {a for a in at if a[0] == "call" and a[1] == "std::fmt::format"}
+
+    is_check = lambda a: a[1].endswith("::check_file_exist")
+    # methods that hand out tested numbers: every return is decided by a negative test of a name built from the returned counter
+    fresh_src = set()
+    for d, b in impl.items():
+        fl = Flow(fb, b)
+        ret = {a for a in fl.atoms(0) if a[0] == "field" and a[1] == WM}
+        rets = [i for i, bl in enumerate(b["blocks"]) if bl["t"]["k"] == "return"]
+        if not ret or not rets or fb.ty(b["locals"][0]["t"]) not in ("i32", "u32", "usize"):
+            continue
+        cfg = CFG(b)
+        good = True
+        for rb in rets:
+            cbs = _neg_guarded(cfg, fl, b, rb, is_check)
+            if not any(ret <= fl.atoms(b["blocks"][cb]["t"]["args"][1]) and fmt_calls(fl.atoms(b["blocks"][cb]["t"]["args"][1])) for cb in cbs):
+                good = False
+        if good:
+            fresh_src.add(d)
+    for d, b in sorted(impl.items()):
+        nm = d.split("::")[-1]
+        if nm in ("add_writer", "add_bin"):
+            continue
+        fl = Flow(fb, b)
+        cfg = None
+        for bi, t in fl.calls(lambda t: t.get("fn", "").split("::")[-1] in ("add_writer", "add_bin") and (t.get("fn") or "").startswith(WM)):
+            at = fl.atoms(t["args"][1])
+            fm = fmt_calls(at)
+            if not fm:
+                continue
+            cfg = cfg or CFG(b)
+            ok = any(fmt_calls(fl.atoms(b["blocks"][cb]["t"]["args"][1])) & fm for cb in _neg_guarded(cfg, fl, b, bi, is_check))
+            why = "added only after check_file_exist of the same name said no"
+            if not ok:
+                params = [a[1] for a in at if a[0] == "arg" and a[1] >= 2]
+                if params:
+                    sites = [(c, ct) for c in sorted({x[0] for x in fb.callers.get(d, ())}) if c in fb.mir for cb, ct in fb.calls_in(fb.mir[c]) if ct.get("fn") == d]
+                    good = bool(sites)
+                    for c, ct in sites:
+                        cfl = Flow(fb, fb.mir[c])
+                        for pi in params:
+                            if pi - 1 < len(ct["args"]):
+                                cat = cfl.atoms(ct["args"][pi - 1])
+                                if not any(a[0] == "call" and a[1] in fresh_src for a in cat):
+                                    good = False
+                    ok = good
+                    why = ("number is a parameter; every caller (%d) passes a number from %s" % (len(sites), sorted(x.split("::")[-1] for x in fresh_src))) if good else "number is a parameter and some caller passes a number that was not tested against the parts already written (add_writer silently skips an existing name)"
+                else:
+                    why = "the name is computed but not tested against the parts already written (add_writer silently skips an existing name)"
+            chk.touch(d)
+            chk.ob(r, "%s:%s" % (nm, t["fn"].split("::")[-1]), ok, where="%s:%s" % (b["file"], t["ln"]), detail=why)
+
+
+
 def run(chk, fb, tier):
     rule_content_types(chk, fb)
     rule_targets(chk, fb)
@@ -480,5 +606,7 @@ def run(chk, fb, tier):
     rule_sheet_names(chk, fb, "C02.i")
     C01.rule_escape(chk, fb)
     rule_quote(chk, fb)
+    rule_sheet_ids(chk, fb)
+    rule_fresh_names(chk, fb)
     chk.assume("zip and quick-xml produce well-formed containers / XML for the events they are given")
     chk.note("not decided: that an independent reader decodes the file to the model (value-level); index-in-table bounds are runtime values")
